@@ -188,7 +188,7 @@ def run(ctx):
     rows = []
     try:
         for si, ops in enumerate(scripts):
-            path = os.path.join(root, common.ckpt_name(f"s{si}", si))
+            path = common.as_user_path(os.path.join(root, common.ckpt_name(f"s{si}", si)), si)
             r = Runner(path, si)
             tagmap = {"0": 0}             # real tag -> model flow id (fit counter)
             counter = 0
